@@ -28,12 +28,28 @@ type pixEv struct {
 	Got    [4]int  `json:"got"`
 }
 type cfgEv struct {
-	Ev   string `json:"ev"`
-	Vb   []F    `json:"vb"`
-	Rect [4]int `json:"rect"`
-	NReg []F    `json:"nreg"`
-	M    []D    `json:"m"`
-	Sp   [2]int `json:"sp"` // the source point passed to Draw: the image pixel aligned with the rectangle's corner
+	Ev   string   `json:"ev"`
+	Vb   []F      `json:"vb"`
+	Rect [4]int   `json:"rect"`
+	NReg []F      `json:"nreg"`
+	M    []D      `json:"m"`
+	Sp   [2]int   `json:"sp"`  // the source point passed to Draw: the image pixel aligned with the rectangle's corner
+	M64  [][7]int `json:"m64"` // the same matrix, exactly: sign, exponent e, five 12-bit limbs of the significand s (value = s * 2^e); sign 2 = not finite
+}
+
+// d64limbs is the exact projection of a float64: no arithmetic, only the fields of its representation.
+func d64limbs(x float64) [7]int {
+	b := math.Float64bits(x)
+	sign, ex, frac := int(b>>63), int(b>>52&0x7ff), b&(1<<52-1)
+	if ex == 0x7ff {
+		return [7]int{2, 0, 0, 0, 0, 0, 0}
+	}
+	if ex == 0 {
+		ex = 1 // subnormal (or zero): no implicit bit
+	} else {
+		frac |= 1 << 52
+	}
+	return [7]int{sign, ex - 1075, int(frac & 0xfff), int(frac >> 12 & 0xfff), int(frac >> 24 & 0xfff), int(frac >> 36 & 0xfff), int(frac >> 48 & 0xfff)}
 }
 
 type pixrEv struct {
@@ -304,6 +320,7 @@ func driveC15(args []string) error {
 				ta, tb, tc, td, te, tf := gc.Transform()
 				for _, v := range []float64{ta, tb, tc, td, te, tf} {
 					ce.M = append(ce.M, d64j(v))
+					ce.M64 = append(ce.M64, d64limbs(v))
 				}
 				sh.Next().Emit(ce)
 				stats["cfg"]++
